@@ -1,8 +1,8 @@
 package engine
 
 import (
-	"github.com/nspcc-dev/neo-go/pkg/vm/stackitem"
 	"fmt"
+	"github.com/nspcc-dev/neo-go/pkg/vm/stackitem"
 	"math/bits"
 
 	"github.com/nspcc-dev/neo-go/pkg/compiler"
